@@ -225,6 +225,9 @@ def renormalize(ctx, seq, functional=False, fast=False, size=None, dtype=None, f
     the maximal size of expansion that a given floating-point system
     enables.
     """
+    if len(seq) == 0:
+        # the empty expansion (an exact zero of the eager functions) is already normal
+        return []
     # VecSum:
     e_lst = vecsum(ctx, seq, fast=fast, fix_overflow=fix_overflow)
     # VecSumErrBranch:
@@ -445,6 +448,8 @@ def quotient4(ctx, dtype, x):
 @fpa.make_api(mp_func=lambda mp_ctx, x: x * x)
 def square(ctx, dtype, seq, functional=False, fast=False, size=None, scale=True):
     """Square of an FP expansion."""
+    if len(seq) == 0:
+        return []
     r_0, e_0 = two_prod(ctx, seq[0], seq[0], dtype=dtype)
     r_lst = [r_0]
     e_lst = [e_0]
